@@ -36,7 +36,7 @@ def drive(sc):
         vlb, vub = [-1.0, -INF, -INF], [3.0, 5.0, 2.0]
     cfg = {"variables": {"initial_values": [0.0, 1.0, 0.0], "lower_bounds": vlb, "upper_bounds": vub},
            # (the method name is case-insensitive: every second scenario spells it in capitals)
-           "optimizer": {"method": "rvscipy/" + (method.upper() if (len(sc["nl"]) + len(sc["lin"]) + sc["maxit"]) % 2 else method)},
+           "optimizer": {"method": "rvscipy/" + (method.upper() if (sc["maxit"] > 0 and sc["options"] == "dict") or ((len(sc["nl"]) + len(sc["lin"])) % 2 == 1 and not sc["maxit"]) else method)},
            "gradient": {"number_of_perturbations": 4, "perturbation_magnitudes": 0.01}}
     if masked:
         cfg["variables"]["mask"] = [True, False, True]
@@ -174,7 +174,9 @@ def model_runs(tier):
                 {"module": "MC_C08", "constants": {"NNL": 1, "NLIN": 3, "Methods": '{"slsqp", "differential_evolution"}'}},
                 # one of the two constraint sets absent (so that a rejection can only come from the other one)
                 {"module": "MC_C08", "constants": {"NNL": 2, "NLIN": 0}},
-                {"module": "MC_C08", "constants": {"NNL": 0, "NLIN": 2}}]
+                {"module": "MC_C08", "constants": {"NNL": 0, "NLIN": 2}},
+                # no constraints at all: every method accepts the problem, so options / max_iterations forwarding is seen for each
+                {"module": "MC_C08", "constants": {"NNL": 0, "NLIN": 0, "Methods": '{"slsqp", "cobyla", "l-bfgs-b", "tnc", "nelder-mead", "powell", "bfgs", "cg", "newton-cg"}'}}]
     return [{"module": "MC_C08", "constants": {"NNL": 2, "NLIN": 2, "Methods": '{"slsqp", "cobyla", "differential_evolution"}'}, "heap": "8g"},
             {"module": "MC_C08", "constants": {"NNL": 3, "NLIN": 1, "Methods": '{"slsqp", "differential_evolution"}'}, "heap": "8g"},
             {"module": "MC_C08", "constants": {"NNL": 1, "NLIN": 3, "Methods": '{"slsqp", "cobyla"}'}, "heap": "8g"},
@@ -182,6 +184,7 @@ def model_runs(tier):
                                                "Methods": '{"l-bfgs-b", "tnc", "nelder-mead", "powell", "bfgs", "cg", "newton-cg"}'}},
             {"module": "MC_C08", "constants": {"NNL": 3, "NLIN": 0,
                                                "Methods": '{"slsqp", "cobyla", "l-bfgs-b", "tnc", "nelder-mead", "powell", "bfgs", "cg", "newton-cg"}'}},
+            {"module": "MC_C08", "constants": {"NNL": 0, "NLIN": 0, "Methods": '{"slsqp", "cobyla", "differential_evolution", "l-bfgs-b", "tnc", "nelder-mead", "powell", "bfgs", "cg", "newton-cg"}'}},
             {"module": "MC_C08", "constants": {"NNL": 0, "NLIN": 3,
                                                "Methods": '{"slsqp", "cobyla", "l-bfgs-b", "tnc", "nelder-mead", "powell", "bfgs", "cg", "newton-cg"}'}}]
 
